@@ -181,6 +181,14 @@ theorem tryFromIter_refuses (k v : Str) (rest : List (Str × Str)) (acc : Quals)
   apply tryFromIter_duplicate U k v rest acc hk
   rw [foundAt_eq_lookupS, lookupS_eq_lookup hacc.1]; exact hs
 
+/-- `clone_from(&src)`: whatever the collection held before, afterwards it holds exactly the
+source's content (nothing of the old content survives, whatever the two lengths) -/
+theorem cloneFrom_spec (q : Quals) (items : List (Str × Str)) (hok : ∀ kv ∈ items, isValidKey kv.1 = true)
+    (hnd : (items.map fun kv => asciiLower kv.1).Nodup) :
+    ∃ q', q.step U (.cloneFrom items) = .ok (.unit, q') ∧ QInv q' ∧ ∀ p, lookup q' p = pairsLookup items p := by
+  obtain ⟨q', h1, h2, h3⟩ := tryFromIter_spec U items hok hnd
+  exact ⟨q', by simp only [Quals.step, h1], h2, h3⟩
+
 /-- the order of the pairs given to `try_from_iter` does not matter -/
 theorem tryFromIter_order_irrelevant (a b : List (Str × Str)) (hperm : a.Perm b)
     (hok : ∀ kv ∈ a, isValidKey kv.1 = true) (hnd : (a.map fun kv => asciiLower kv.1).Nodup) :
